@@ -7,7 +7,7 @@ reference timer wheel; a twin model advanced strictly one step at a time must lo
 from .common import MAXSIZE, Model, Rec, RefSched, gen_prio, spec_defaults
 
 PROPERTY = "C02"
-QUICK_RUNS = 30000
+QUICK_RUNS = 20000
 CHUNK = 400
 RULE = ("1-8 timer systems with start in [-12,50] or far future, end in {forever, <start, =start, inside horizon}, "
         "frequency 1..9 or beyond the horizon, registered before the run or at a later clock value; clock advanced by "
